@@ -415,6 +415,41 @@ impl<'tcx> Ex<'tcx> {
                     }
                 }
             }
+            // a provided method of `Iterator` (try_for_each, for_each, fold, ..) called on a workspace iterator type runs that
+            // type's `next` inside std: make the `next` instance part of the closure, so that the analysis can interpret the adaptor
+            if !self.is_ws(rd) {
+                if let (Some(tr), Some(it_tr)) = (tcx.trait_of_assoc(rd), tcx.get_diagnostic_item(rustc_span::sym::Iterator)) {
+                    if tr == it_tr && inst.args.len() >= 1 {
+                        let mut self_ty = inst.args.type_at(0);
+                        while let ty::Ref(_, inner, _) = self_ty.kind() {
+                            self_ty = *inner;
+                        }
+                        let ws_adt = match self_ty.kind() {
+                            ty::Adt(adt, _) => self.is_ws(adt.did()),
+                            _ => false,
+                        };
+                        if ws_adt {
+                            let nx = tcx
+                                .associated_items(it_tr)
+                                .in_definition_order()
+                                .find(|it| it.name().as_str() == "next")
+                                .map(|it| it.def_id);
+                            if let Some(ndid) = nx {
+                                let nargs = tcx.mk_args(&[self_ty.into()]);
+                                if let Some(inner) = Instance::try_resolve(tcx, env, ndid, nargs).ok().flatten() {
+                                    let mut v = J::obj();
+                                    v.put("rkey", J::s(self.inst_key(inner)));
+                                    v.put("rpath", J::s(self.def_path(inner.def_id())));
+                                    o.put("iter_next", v);
+                                    if self.is_ws(inner.def_id()) {
+                                        self.enqueue(inner, env, depth + 1);
+                                    }
+                                }
+                            }
+                        }
+                    }
+                }
+            }
             if self.is_ws(rd) {
                 self.enqueue(inst, env, depth + 1);
             } else {
